@@ -328,6 +328,14 @@ class Verifier(Dyn):
                     ob.result, ob.backend, ob.reason = "discharged", "z3", "relevance slice depth %d (%d of %d facts)" % (depth, len(sub), len(ob.pc))
                     ob.time = time.time() - t0
                     return ob
+        if any("rx_" in x for x in self.symbols_of(ob.goal)) or any("rx_matched" in x for f in ob.pc[-40:] for x in self.symbols_of(f)):
+            # regular-expression obligations: word equations under a Boolean structure -- go straight to the case split
+            r3, model, how = self.split_discharge(ob, timeout_ms)
+            if r3 in ("unsat", "sat"):
+                ob.result = "discharged" if r3 == "unsat" else "failed"
+                ob.backend, ob.reason, ob.model = ("z3" if (r3 == "sat" and model is not None) else "cvc5"), how, model
+                ob.time = time.time() - t0
+                return ob
         try:
             s = self.build_solver(ob, timeout_ms)
         except Unsupported as e:
@@ -344,21 +352,89 @@ class Verifier(Dyn):
             ob.model = self.extract_model(s.model(), ob)
         else:
             ob.reason = s.reason_unknown()
-            r2 = self.try_cvc5(s, timeout_ms)
+            r2 = self.try_cvc5(s, min(timeout_ms, 8000))
             if r2 == "unsat":
                 ob.result, ob.backend = "discharged", "cvc5"
             elif r2 == "sat":
                 ob.result, ob.backend = "failed", "cvc5"
                 ob.model = None
             else:
-                ob.result = "undecided"
+                r3, model, how = self.split_discharge(ob, timeout_ms)
+                if r3 == "unsat":
+                    ob.result, ob.backend, ob.reason = "discharged", "cvc5", how
+                elif r3 == "sat":
+                    ob.result, ob.backend, ob.reason = "failed", ("z3" if model is not None else "cvc5"), how
+                    ob.model = model
+                else:
+                    ob.result = "undecided"
         ob.time = time.time() - t0
         ob.smt_head = None
         return ob
 
+    def split_discharge(self, ob, timeout_ms):
+        """Case split on the Boolean structure of the query (optional-present flags, regex 'taken' flags): string solvers that
+        give up on the merged formula usually decide each case at once.  All cases unsat => unsat; a sat case => sat."""
+        import itertools
+        import concurrent.futures
+        bools, seen = {}, set()
+        stack = list(ob.pc) + [ob.goal]
+        while stack:
+            t = stack.pop()
+            if t.get_id() in seen:
+                continue
+            seen.add(t.get_id())
+            if z3.is_const(t) and z3.is_bool(t) and t.decl().kind() == z3.Z3_OP_UNINTERPRETED:
+                nm = t.decl().name()
+                if "?none" in nm or "_take" in nm or "_matched" in nm:
+                    bools[nm] = t
+            stack.extend(t.children())
+        sp = [bools[k] for k in sorted(bools)][:6]
+        if not sp:
+            return "unknown", None, ""
+        cases = list(itertools.product([True, False], repeat=len(sp)))
+
+        # z3 objects are not thread-safe: queries are built and pre-checked sequentially, only the cvc5 subprocesses run in parallel
+        texts, results = [], []
+        for vals in cases:
+            s = z3.Solver()
+            s.set("timeout", 300)
+            s.add(*ob.pc)
+            s.add(z3.Not(ob.goal))
+            for b, x in zip(sp, vals):
+                s.add(b if x else z3.Not(b))
+            r = s.check()
+            if r == z3.unsat:
+                results.append(("unsat", None))
+            elif r == z3.sat:
+                results.append(("sat", self.extract_model(s.model(), ob)))
+                break
+            else:
+                results.append(None)
+                texts.append((len(results) - 1, "(set-logic ALL)\n" + s.to_smt2()))
+        if not any(r is not None and r[0] == "sat" for r in results):
+            with concurrent.futures.ThreadPoolExecutor(max_workers=8) as ex:
+                outs = list(ex.map(lambda it: (it[0], self.run_cvc5_text(it[1], max(5000, timeout_ms // 2))), texts))
+            for idx, r in outs:
+                results[idx] = (r, None)
+        results = [r for r in results if r is not None]
+        if len(results) < len(cases) and not any(r[0] == "sat" for r in results):
+            return "unknown", None, ""
+        how = "case split on %d structural Booleans (%d cases)" % (len(sp), len(cases))
+        for r, m in results:
+            if r == "sat":
+                return "sat", m, how
+        if all(r == "unsat" for r, _ in results):
+            return "unsat", None, how
+        return "unknown", None, how
+
     def try_cvc5(self, s, timeout_ms):
         try:
-            text = "(set-logic ALL)\n" + s.to_smt2()
+            return self.run_cvc5_text("(set-logic ALL)\n" + s.to_smt2(), timeout_ms)
+        except Exception:
+            return "unknown"
+
+    def run_cvc5_text(self, text, timeout_ms):
+        try:
             with tempfile.NamedTemporaryFile("w", suffix=".smt2", delete=False, dir=os.environ.get("PYVC_TMP", "/tmp")) as f:
                 f.write(text)
                 path = f.name
@@ -416,6 +492,10 @@ class Verifier(Dyn):
         k = ev(kind_of(o))
         k = k.as_long() if z3.is_int_value(k) else 0
         d = {"$obj": str(ev(o)), "kind": k}
+        try:
+            d["truthy"] = bool(z3.is_true(ev(z3.Function("py_truthy", ObjSort, z3.BoolSort())(o))))
+        except Exception:
+            pass
         try:
             if k in (1, 2, 3):
                 d["value"] = self.pyval(ev(unbox_fn(k)[0](o)))
